@@ -10,7 +10,25 @@ class RemoveObject(SuiteTransformer):
         if sys.version_info < (3, 0):
             return node
 
+        if self.rebinds_object(node):
+            # The name 'object' may not be the builtin
+            return node
+
         return self.visit(node)
+
+    @staticmethod
+    def rebinds_object(module):
+        for node in ast.walk(module):
+            if isinstance(node, ast.Name) and node.id == 'object' and not isinstance(node.ctx, ast.Load):
+                return True
+            elif isinstance(node, (ast.FunctionDef, ast.AsyncFunctionDef, ast.ClassDef)) and node.name == 'object':
+                return True
+            elif isinstance(node, ast.alias) and (node.asname or node.name).split('.')[0] == 'object':
+                return True
+            elif isinstance(node, ast.arg) and node.arg == 'object':
+                return True
+
+        return False
 
     def visit_ClassDef(self, node):
         node.bases = [
